@@ -568,6 +568,23 @@ class Interp:
                 del self.frame.env[t.id]
             elif isinstance(t, ast.Subscript):
                 obj = self.eval(t.value)
+                if isinstance(t.slice, ast.Slice):
+                    if t.slice.step is not None:
+                        self.unsupported(st, "del of an extended slice")
+                    lo = self.eval(t.slice.lower) if t.slice.lower is not None else None
+                    hi = self.eval(t.slice.upper) if t.slice.upper is not None else None
+
+                    def bound(x):
+                        if x is None or isinstance(x, NoneV):
+                            return None
+                        if isinstance(x, Num) and self.st.norm(x.rf).is_const():
+                            return int(self.st.norm(x.rf).const_value())
+                        self.unsupported(st, "del of a slice with a symbolic bound")
+                    if not (isinstance(obj, ListV) and obj.items is not None):
+                        self.unsupported(st, "del of a slice of something else than a concrete list")
+                    self.st.effects.append(("delitem", obj, SliceV(lo, hi), self.models.where(t)))
+                    del obj.items[bound(lo):bound(hi)]
+                    continue
                 key = self.eval(t.slice)
                 if isinstance(obj, ListV) and obj.items is None and isinstance(key, Num):
                     # `del l[i]` is `l.pop(i)` without the result
